@@ -96,16 +96,10 @@ fn ds_ops<F: PrimeField>(c: &mut Cx, a: &[F], s: &SparsePolynomial<F>) {
     c.emit("dssub", &args, guarded(|| shd(&(&pa - s).coeffs)));
     c.emit("dssubas", &args, guarded(|| { let mut x = pa.clone(); x -= s; shd(&x.coeffs) }));
 }
-/// a sparse divisor that stores its top degree twice makes `divide_with_q_and_r` loop forever
-/// (the "leading coefficient" it inverts is only the last stored term): such lines cannot be run.
-fn top_dup<F: PrimeField>(s: &SparsePolynomial<F>) -> bool {
-    let v = s.to_vec();
-    v.len() >= 2 && v[v.len() - 1].0 == v[v.len() - 2].0
-}
 fn ds_div<F: PrimeField>(c: &mut Cx, a: &[F], s: &SparsePolynomial<F>) {
     let pa = dp(a);
-    if !top_dup(s) { c.emit("dsdiv", &format!("{} {}", shd(a), shs(&s.to_vec())),
-        guarded(|| qr(DenseOrSparsePolynomial::from(&pa).divide_with_q_and_r(&s.into())))); }
+    c.emit("dsdiv", &format!("{} {}", shd(a), shs(&s.to_vec())),
+        guarded(|| qr(DenseOrSparsePolynomial::from(&pa).divide_with_q_and_r(&s.into()))));
     c.emit("sddiv", &format!("{} {}", shs(&s.to_vec()), shd(a)),
         guarded(|| qr(DenseOrSparsePolynomial::from(s).divide_with_q_and_r(&(&pa).into()))));
 }
@@ -130,7 +124,7 @@ fn ss_ops<F: PrimeField>(c: &mut Cx, s: &SparsePolynomial<F>, t: &SparsePolynomi
     if more {
         c.emit("saddas", &args, guarded(|| { let mut x = s.clone(); x += t; shs(&x.to_vec()) }));
         c.emit("saddv", &args, guarded(|| shs(&(s.clone() + t.clone()).to_vec())));
-        if !top_dup(t) { c.emit("ssdiv", &args, guarded(|| qr(DenseOrSparsePolynomial::from(s).divide_with_q_and_r(&t.into())))); }
+        c.emit("ssdiv", &args, guarded(|| qr(DenseOrSparsePolynomial::from(s).divide_with_q_and_r(&t.into()))));
     }
 }
 fn ss_scaled<F: PrimeField>(c: &mut Cx, s: &SparsePolynomial<F>, f: &F, t: &SparsePolynomial<F>) {
